@@ -36,7 +36,8 @@ RInstances == << N1, N3, F15, Str(S_x), JNull,
                  Arr(<<Arr(<<N1, Str(S_x)>>)>>) >>
 
 AllNames == << S_a, <<>>, <<97, 47, 98>>, <<97, 126, 98>>, <<126, 48, 49>>, <<126, 49>>, <<37>>, <<37, 50, 53>>,
-               <<97, 32, 98>>, <<233>>, <<48>>, <<48, 49>>, <<35>>, <<63>>, <<34>>, <<92>>, <<126, 48>>, <<47>>, <<126>> >>
+               <<97, 32, 98>>, <<233>>, <<48>>, <<48, 49>>, <<35>>, <<63>>, <<34>>, <<92>>, <<126, 48>>, <<47>>, <<126>>,
+               <<120, 115, 58, 105, 110, 116>> >>      \* the last one: "xs:int" (a colon inside a relative reference)
 
 T == Bases[bi]
 \* positions that may be extracted (Draft 3: a property subschema with `required` is read lexically by its parent)
@@ -103,12 +104,16 @@ Scenario ==
                               more |-> <<[u |-> UDirDefs, doc |-> Obj1(K_definitions, Defs(n))]>>]
     \* recursion through the root ("#"), only at positions below an instance-consuming keyword (well-founded)
     [] arr = "recursive"  -> [S |-> TRef(<<35>>), more |-> <<>>]
+    \* the caller's store holds ANOTHER document under the root's own id (an older revision): same-document references
+    \* still mean the document itself
+    [] arr = "shadow"     -> [S |-> WithFirst(WithLast(TRef(DefRef(n)), K_definitions, Defs(n)), IdKw(D), Str(URoot)),
+                              more |-> <<[u |-> URoot, doc |-> Obj1(K_definitions, Obj1(n, Never(D)))]>>]
     [] arr = "urn"        -> [S |-> WithFirst(WithLast(TRef(DefRef(n)), K_definitions, Defs(n)), IdKw(D), Str(UUrn)), more |-> <<>>]
 
 AllArrs == {"local", "rootid", "rootidhash", "absref", "relid", "storeabs", "storerel", "storeownid", "chain",
-            "arrayelem", "nestedabs", "nestedrel", "mixed", "otherid", "recursive", "urn"}
+            "arrayelem", "nestedabs", "nestedrel", "mixed", "otherid", "recursive", "shadow", "urn"}
 
-QuickNames == {1, 2, 3, 5, 6, 8, 10, 13}
+QuickNames == {1, 2, 3, 5, 6, 8, 10, 13, 20}
 ThoroughNames == DOMAIN AllNames
 
 OtherIdOnly == {"otherid"}
